@@ -776,6 +776,17 @@ def call_builtin(I, st, name, args, kwargs, node=None):
         if h:
             return h(I, st, name, args, kwargs)
         raise OutOfSubset(name)
+    if name == "dict" and len(args) == 1 and isinstance(args[0], GenExpArg) and not kwargs:
+        res = []
+        for s, lo in eval_collect(I, st, args[0].node, "list"):
+            if isinstance(lo, Raised):
+                res.append((s, lo))
+                continue
+            items = s.heap[lo.oid].get("items")
+            if items is None or not all(isinstance(it, PyTuple) and len(it.items) == 2 and isinstance(it.items[0], SV) and it.items[0].known for it in items):
+                raise OutOfSubset("dict(genexp) with symbolic keys")
+            res.append((s, PyDict({it.items[0].conc: it.items[1] for it in items})))
+        return res
     if name == "dict":
         if not args and not kwargs:
             return [(st, PyDict({}))]
@@ -1100,6 +1111,10 @@ def call_method(I, st, obj, name, args, kwargs, node=None):
             return branch(ctx, st, cases)
     if isinstance(obj, FractionV) and name == "denominator":
         pass
+    if isinstance(obj, ClassRef):
+        key = find_method(I, obj.name, name)
+        if key is not None:
+            return I.call_func(st, FuncRef(key), [obj] + list(args), kwargs, node)
     if isinstance(obj, ObjVal):
         # method of a repository class
         key = find_method(I, obj.cls, name)
@@ -1292,6 +1307,9 @@ def construct(I, st, cls, args, kwargs, node=None):
                 fields[pf] = PathV(front=v.items)
             elif isinstance(v, PathV):
                 fields[pf] = v
+            elif isinstance(v, ErrPathRef):
+                src = st.heap[v.err.oid].fields.get(v.field)      # deque(path) copies the elements
+                fields[pf] = src if isinstance(src, PathV) else PathV(base=("elem", v.field))
             else:
                 raise OutOfSubset("error constructed with path %r" % (v,))
         cx = f.get("context", PyTuple(()))
